@@ -627,6 +627,9 @@ func (ex *Exec) invoke(st *State, fr *Frame, instr ssa.Instruction, c *ssa.CallC
 		return true
 	}
 	if c.IsInvoke() {
+		if rt, ok := fnv.(*VRType); ok {
+			return finish(ex.rtypeMethod(st, instr, rt, c.Method.Name(), args))
+		}
 		recv := fnv.(*VIface)
 		recv, alt := ex.resolveIface(st, recv, instr)
 		if alt == nil {
@@ -695,10 +698,14 @@ func (ex *Exec) callFunction(st *State, fr *Frame, instr ssa.Instruction, callee
 	if len(st.frames) > ex.MaxInline {
 		ex.unsupported("inlining depth exceeded at %s", key)
 	}
+	depth := 0
 	for _, f := range st.frames {
 		if f.fn == callee {
-			ex.unsupported("recursive call of %s without contract", key)
+			depth++
 		}
+	}
+	if depth > 3 {
+		ex.unsupported("recursive call of %s without contract (depth > 3)", key)
 	}
 	ex.cur.inlined[key] = true
 	nf := &Frame{fn: callee, block: callee.Blocks[0], regs: map[ssa.Value]Value{}, visits: map[*ssa.BasicBlock]int{}}
